@@ -103,6 +103,20 @@ def main():
                 notes = open(p).read()
             m = re.search(r"(?is)(needs|what it needs|to manifest)[^\n]*\n(.{0,600})", notes)
             meta["needs_to_manifest"] = (m.group(0)[:700] if m else "see notes.md")
+            # keep the history of measurements (a change missed at first and caught after strengthening stays visible)
+            old = os.path.join(dst, "meta.json")
+            hist = []
+            if os.path.exists(old):
+                try:
+                    om = json.load(open(old))
+                    hist = om.get("measurements", [])
+                    for k in ("summary", "needs_to_manifest", "breaks_property"):
+                        if k in om and k not in meta:
+                            meta[k] = om[k]
+                except Exception:
+                    pass
+            hist.append({"at": time.strftime("%Y-%m-%d %H:%M"), "checks_from": os.environ.get("VERIF_SNAPSHOT", "/verif (working tree)"), "caught_by": meta.get("caught_by", [])})
+            meta["measurements"] = hist
             json.dump(meta, open(os.path.join(dst, "meta.json"), "w"), indent=1)
         sh("git -C /repo worktree remove --force %s" % wt)
         shutil.rmtree(wt, ignore_errors=True)
